@@ -48,6 +48,8 @@ type Profile struct {
 	// also appear as array items and definitions. No value oracle covers these;
 	// they serve the compile-level property only.
 	MixedBranches bool
+	// UnmappedFormats: constrained strings may also state a format without Go type (email, uri, ...).
+	UnmappedFormats bool
 	// UntypedAdditional: additionalProperties true / {} next to declared properties.
 	UntypedAdditional bool
 
@@ -267,6 +269,11 @@ func (c *Ctx) String(t *rapid.T, pos Pos) *model.Node {
 			// known finding while the switch is on: a limit of 0 is taken for "no limit"
 			n.MaxLength = model.IntP(0)
 		}
+	}
+	if p.UnmappedFormats && rapid.IntRange(0, 4).Draw(t, "unmappedformat") == 0 {
+		// a format the tool has no Go type for: the field stays a plain string and its length and
+		// pattern limits stay in force
+		n.Noise = append(n.Noise, jv.KV{K: "format", V: jv.StrV(rapid.SampledFrom([]string{"email", "uri", "uuid", "hostname", "x-custom"}).Draw(t, "unmappedformatv"))})
 	}
 	if chance(t, p.PConstraint*0.7, "haspattern") {
 		// only patterns that some string inside the length window can match
